@@ -2,3 +2,6 @@ import TelProofs.Loop
 import TelProofs.Props.C08
 import TelProofs.Props.C03
 import TelProofs.Props.C05
+import TelProofs.Props.C09
+import TelProofs.Props.C01
+import TelProofs.Props.C02
